@@ -40,6 +40,26 @@ def _setitem():
     return gen, run
 
 
+@defop("fill_inplace", "assign", kind="inplace", weight=0.5)
+def _fill_inplace():
+    def gen(w, rng):
+        a_id = pick_arr(w, rng, lambda a: a.dtype.kind == "f")
+        if a_id is None:
+            return None
+        return {"a": a_id, "fn": rng.choice(["fillna", "setna", "fill"]), "value": rng.choice([-9.0, 0.0, 3.0, 2.5])}
+
+    def run(w, s):
+        a = w.arr(s["a"])
+        if s["fn"] == "fill":
+            r = a.values.fill(s["value"])        # ndarray.fill on the values the array hands out
+        else:
+            r = getattr(a, s["fn"])(s["value"], inplace=True)
+        if r is not None and "C15" in w.props:
+            raise Violation("C15", "operand_changed", "%s(inplace=True) returned %s instead of working in place" % (s["fn"], type(r).__name__))
+        return None
+    return gen, run
+
+
 @defop("setitem_array", "assign", kind="inplace", weight=0.6)
 def _setitem_array():
     def gen(w, rng):
